@@ -8,6 +8,7 @@ import (
 	"path/filepath"
 	"strings"
 	"sync/atomic"
+	"syscall"
 	"testing"
 	"time"
 
@@ -35,6 +36,8 @@ type C12Case struct {
 	// DestRemote (diff, sum-diff): in the remote run the destination base is the server URL too, so the
 	// command's two concurrent reads hit one server
 	DestRemote bool `json:"dest_remote,omitempty"`
+	// WriterHolds (view, view-raw of an existing file): see runC12
+	WriterHolds bool `json:"writer_holds,omitempty"`
 	// Phase2: after the first comparison the served tree is changed (files added / removed) and the same
 	// command is run and compared again against the same, long-running server
 	AddFiles    []TreeFile `json:"add_files,omitempty"`
@@ -156,7 +159,37 @@ again:
 		add("remote-hang", "%s: (not run) the server stopped answering earlier in this process: %s", desc, serverWedged)
 		return
 	}
-	errL, pmL := runCommand(now, cmdL)
+	var errL error
+	var pmL string
+	var writerDone chan struct{}
+	if c.WriterHolds && phase == 1 && (c.Cmd == "view" || c.Cmd == "view-raw") && fileExists(filepath.Join(root, sub, c.Rel)) {
+		// a writer (another descriptor) holds the file's lock while the read arrives through the server,
+		// changes a slot and lets go: a read waits for the lock, so it shows the writer's committed state -
+		// the state the local read, made afterwards, shows too
+		held := make(chan struct{})
+		writerDone = make(chan struct{})
+		wp := filepath.Join(root, sub, c.Rel)
+		go func() {
+			defer close(writerDone)
+			fd, err := syscall.Open(wp, syscall.O_RDWR, 0)
+			if err == nil {
+				syscall.Flock(fd, syscall.LOCK_EX)
+			}
+			close(held)
+			time.Sleep(70 * time.Millisecond)
+			if db, e := openWT(wp, wt.WithoutFlock()); e == nil {
+				updateWT(db, 0, now, 424242.5, now)
+				db.Sync()
+				db.Close()
+			}
+			if err == nil {
+				syscall.Close(fd)
+			}
+		}()
+		<-held
+	} else {
+		errL, pmL = runCommand(now, cmdL)
+	}
 	var errR error
 	var pmR string
 	doneR := make(chan struct{})
@@ -175,6 +208,11 @@ again:
 		serverWedged = desc
 		add("remote-hang", "%s: the local run finished (%v) but the run against the server URL did not return within 90 s", desc, errL)
 		return
+	}
+	if writerDone != nil {
+		<-writerDone
+		errL, pmL = runCommand(now, cmdL)
+		desc = "(a writer held the file's lock while the remote read arrived, changed a slot and released it) " + desc
 	}
 	if pmL != "" {
 		add("local-panic", "%s: the local run panicked: %s", desc, pmL)
@@ -460,6 +498,13 @@ func genC12(t *rapid.T) C12Case {
 			c.RemoveFiles = append(c.RemoveFiles, f.Dir+"/"+f.Name)
 		}
 	}
+	if !exists && (c.Cmd == "view" || c.Cmd == "view-raw" || c.Cmd == "diff") && strings.HasSuffix(c.Rel, ".wsp") && !strings.ContainsAny(c.Rel, "*?[") && rapid.Bool().Draw(t, "appearsLater") {
+		// the file asked for in vain is there at the second run (a server must not remember that it was not)
+		c.AddFiles = append(c.AddFiles, TreeFile{Dir: filepath.Dir(c.Rel), Name: filepath.Base(c.Rel), Spec: pick.Spec})
+	}
+	if (c.Cmd == "view" || c.Cmd == "view-raw") && exists && rapid.IntRange(0, 15).Draw(t, "writerHolds") == 7 {
+		c.WriterHolds = true
+	}
 	c.From, c.Until = genCLIWindow(t, l, now)
 	switch r := rapid.IntRange(0, 9).Draw(t, "archiveSel"); {
 	case r < 3:
@@ -478,7 +523,7 @@ func TestC12(t *testing.T) {
 	RunProperty(t, Property[C12Case]{
 		NoteCases:   true,
 		ID:          "C12",
-		Rule:        "one in-process `whispertool server` over a per-process root; per case a fresh served subtree (1-3 directories x 1-6 files) and a command - view, view-raw, sum, diff and copy with the source side remote, sum-diff, file and item globs through them - run twice at the same controlled clock: with the directory and with the server URL as base, through real HTTP round trips. Existing and missing files / patterns, every window / archive selection (incl. out-of-range ids). Oracle (differential): same result class {nil, diff found, not-exist, other error}, byte-identical text output, and for copy byte-identical destination trees. Non-trivial: the compared output has >=1 data line, or the case is a not-exist case. Distinct = hash of the case.",
+		Rule:        "one in-process `whispertool server` over a per-process root; per case a fresh served subtree (1-3 directories x 1-6 files) and a command - view, view-raw, sum, diff and copy with the source side remote, sum-diff, file and item globs through them - run twice at the same controlled clock: with the directory and with the server URL as base, through real HTTP round trips. Existing and missing files / patterns, every window / archive selection (incl. out-of-range ids). Oracle (differential): same result class {nil, diff found, not-exist, other error}, byte-identical text output, and for copy byte-identical destination trees. Further modes: a writer holds the served file's lock while the remote read arrives; a file asked for in vain exists at the second run; the served root's name contains a colon (relative spelling); the quick tier runs as two processes, the second with DEBUG=1. Non-trivial: the compared output has >=1 data line, or the case is a not-exist case. Distinct = hash of the case.",
 		Assumptions: []string{"error messages of the 'other error' class are not compared", "file and directory names from [a-z0-9/.] plus, in a quarter of the cases, one of + & space %41 = # ; (no glob metacharacters, no dots in directory names)"},
 		Gen:         genC12,
 		Run:         runC12,
